@@ -49,22 +49,23 @@ type propCfg struct {
 }
 
 type shardStats struct {
-	Property    string            `json:"property"`
-	Evaluations int64             `json:"evaluations"`
-	Cases       int64             `json:"cases"`
-	NonTrivial  int64             `json:"nontrivial_total"`
-	Classes     map[string]int64  `json:"classes"`
-	Known       map[string]int64  `json:"known"`
-	KnownSample map[string]string `json:"known_sample"`
-	Programs    int64             `json:"programs"`
-	Samples     []json.RawMessage `json:"samples"`
-	Failed      bool              `json:"failed"`
+	Property     string            `json:"property"`
+	Evaluations  int64             `json:"evaluations"`
+	Cases        int64             `json:"cases"`
+	NonTrivial   int64             `json:"nontrivial_total"`
+	Classes      map[string]int64  `json:"classes"`
+	Known        map[string]int64  `json:"known"`
+	KnownSample  map[string]string `json:"known_sample"`
+	Programs     int64             `json:"programs"`
+	Samples      []json.RawMessage `json:"samples"`
+	Failed       bool              `json:"failed"`
+	Inconclusive []string          `json:"inconclusive"`
 }
 
 type finding struct {
-	ID       string `json:"id"`
-	Property string `json:"property"`
-	Status   string `json:"status"` // "known"
+	ID       string   `json:"id"`
+	Property string   `json:"property"`
+	Status   string   `json:"status"` // "known"
 	What     string   `json:"what"`
 	Also     []string `json:"also"`
 }
@@ -353,6 +354,7 @@ func run(id, tier string) int {
 	}
 	wg.Wait()
 
+	skippedCases := []string{} // cases that could not be judged (worker deadline on a loaded machine)
 	merged := shardStats{Property: id, Classes: map[string]int64{}, Known: map[string]int64{}, KnownSample: map[string]string{}}
 	hashes := map[uint64]struct{}{}
 	for _, r := range results {
@@ -364,6 +366,9 @@ func run(id, tier string) int {
 		merged.Cases += st.Cases
 		merged.NonTrivial += st.NonTrivial
 		merged.Programs += st.Programs
+		for _, msg := range st.Inconclusive {
+			skippedCases = append(skippedCases, fmt.Sprintf("shard %d: %s", r.idx, msg))
+		}
 		for k, v := range st.Classes {
 			merged.Classes[k] += v
 		}
@@ -451,6 +456,7 @@ func run(id, tier string) int {
 			"shards":              tc.Shards,
 			"checks_per_shard":    tc.Checks,
 			"race_detector":       cfg.Race,
+			"unjudged_cases":      skippedCases,
 		},
 		"assumptions": cfg.Assume,
 		"wall_s":      time.Since(t0).Seconds(),
@@ -477,6 +483,13 @@ func run(id, tier string) int {
 			fmt.Printf("VIOLATION property=%s replay=%s\n", id, v)
 		}
 		return 1
+	}
+	// A few unjudged cases do not make the run inconclusive (they are counted in the evidence); many do.
+	for _, s := range skippedCases {
+		fmt.Printf("UNJUDGED-CASE property=%s %s\n", id, s)
+	}
+	if int64(len(skippedCases)) > 2 && int64(len(skippedCases))*50 > merged.Cases {
+		inconclusive = append(inconclusive, fmt.Sprintf("%d of %d cases could not be judged", len(skippedCases), merged.Cases))
 	}
 	if len(inconclusive) > 0 {
 		for _, s := range inconclusive {
